@@ -3,6 +3,8 @@ package rules
 import (
 	"fmt"
 	"go/token"
+	"go/types"
+	"sort"
 	"strings"
 
 	"golang.org/x/tools/go/ssa"
@@ -211,4 +213,256 @@ func RuleFValuationOpen(c *core.Ctx) {
 		}
 	}
 	c.Floor(rule, 1)
+}
+
+// RuleKEmitAll — the transcoder's writers emit every element they are given:
+//
+//	(a) in a loop over Journal.Days, Day.Openings, Day.Closings,
+//	    Day.Transactions or Transaction.Postings, a call that writes the
+//	    loop's own element (the element is an argument) is not
+//	    control-dependent on any test other than an error test;
+//	(b) a function of the transcoder that takes the writer returns without an
+//	    error only after its outermost element loops: every return that is
+//	    not the true branch of an error test is dominated by a call that
+//	    receives the writer and by the header of each outermost element loop.
+//
+// (a) with an element dropped the output is not the journal's set of
+// directives (an account used after its close, a missing transaction); (b) a
+// writer that declines to write and reports success loses the element
+// silently.
+func RuleKEmitAll(c *core.Ctx) {
+	const rule = "K-emit-all"
+	p := c.P
+	tracked := map[string]bool{}
+	for _, f := range []struct{ pkg, typ, field string }{
+		{pkgJournal, "Journal", "Days"}, {pkgJournal, "Day", "Openings"}, {pkgJournal, "Day", "Closings"},
+		{pkgJournal, "Day", "Transactions"}, {pkgTransaction, "Transaction", "Postings"},
+	} {
+		if fv := p.Field(f.pkg, f.typ, f.field); fv != nil {
+			tracked[p.FieldRef(fv)] = true
+		} else {
+			c.Anchor(rule, f.typ+"."+f.field)
+			return
+		}
+	}
+	n := 0
+	for _, fn := range p.SrcFuncs() {
+		if core.PkgPathOf(fn) != pkgBeancount || fn.Parent() != nil {
+			continue
+		}
+		// writer parameter
+		var w *ssa.Parameter
+		for _, prm := range fn.Params {
+			if types.TypeString(prm.Type(), nil) == "io.Writer" {
+				w = prm
+			}
+		}
+		if w == nil || fn.Signature.Results().Len() == 0 {
+			continue
+		}
+		loops := loopsOf(fn)
+		type eloop struct {
+			h     *ssa.BasicBlock
+			body  map[*ssa.BasicBlock]bool
+			field string
+			elem  map[ssa.Value]bool
+		}
+		var els []eloop
+		for h, body := range loops {
+			field := ""
+			var ranged ssa.Value
+			for _, ins := range h.Instrs {
+				if bo, ok := ins.(*ssa.BinOp); ok && bo.Op == token.LSS {
+					if call, ok := bo.Y.(*ssa.Call); ok {
+						if b, ok := call.Call.Value.(*ssa.Builtin); ok && b.Name() == "len" {
+							if f, _ := containerRoot(call.Call.Args[0]); f != nil && tracked[p.FieldRef(f)] {
+								field, ranged = p.FieldRef(f), call.Call.Args[0]
+							}
+						}
+					}
+				}
+			}
+			if field == "" {
+				continue
+			}
+			// the element: loads of &ranged[i] in the body
+			elem := map[ssa.Value]bool{}
+			for b := range body {
+				for _, ins := range b.Instrs {
+					if ia, ok := ins.(*ssa.IndexAddr); ok && ia.X == ranged {
+						for _, r := range *ia.Referrers() {
+							if ld, ok := r.(*ssa.UnOp); ok && ld.Op == token.MUL {
+								elem[ld] = true
+							}
+						}
+					}
+				}
+			}
+			els = append(els, eloop{h, body, field, elem})
+		}
+		sort.Slice(els, func(i, j int) bool { return els[i].h.Index < els[j].h.Index })
+		// (a)
+		for _, el := range els {
+			var writes []*ssa.Call
+			for b := range el.body {
+				for _, ins := range b.Instrs {
+					call, ok := ins.(*ssa.Call)
+					if !ok {
+						continue
+					}
+					takesElem := false
+					for _, a := range call.Call.Args {
+						if el.elem[core.Strip(a)] || el.elem[a] {
+							takesElem = true
+						}
+						if mi, ok := a.(*ssa.MakeInterface); ok && el.elem[mi.X] {
+							takesElem = true
+						}
+					}
+					if takesElem && callWrites(p, call, w) {
+						writes = append(writes, call)
+					}
+				}
+			}
+			if len(writes) == 0 {
+				continue
+			}
+			n++
+			key := fmt.Sprintf("%s:every element of %s is written", core.FuncName(fn), el.field)
+			var bad []string
+			for _, wr := range writes {
+				for b := range el.body {
+					iff, isIf := b.Instrs[len(b.Instrs)-1].(*ssa.If)
+					if !isIf || b == el.h {
+						continue
+					}
+					if ctl, _ := core.Controls(b, wr.Block()); !ctl {
+						continue
+					}
+					if isErrTest(iff.Cond) {
+						continue
+					}
+					bad = append(bad, describeValue(p, iff.Cond))
+				}
+			}
+			if len(bad) == 0 {
+				c.Ob(rule, key, core.NearPos(writes[0]), core.FuncName(fn), core.Discharged, "the write of the loop's element depends on no test other than error tests")
+			} else {
+				c.Ob(rule, key, core.NearPos(writes[0]), core.FuncName(fn), core.Violated, "whether an element of "+el.field+" is written depends on "+strings.Join(uniq(bad), "; ")+": the ledger no longer contains every directive of the journal")
+			}
+		}
+		// (b)
+		var outer []eloop
+		for _, el := range els {
+			nested := false
+			for _, o := range els {
+				if o.h != el.h && o.body[el.h] {
+					nested = true
+				}
+			}
+			if !nested {
+				outer = append(outer, el)
+			}
+		}
+		var writeBlocks []*ssa.BasicBlock
+		core.EachInstr(fn, func(ins ssa.Instruction) {
+			if call, ok := ins.(*ssa.Call); ok && callWrites(p, call, w) {
+				writeBlocks = append(writeBlocks, call.Block())
+			}
+		})
+		for _, b := range fn.Blocks {
+			ret, ok := b.Instrs[len(b.Instrs)-1].(*ssa.Return)
+			if !ok {
+				continue
+			}
+			// error return: the block is entered only through the true edge of an error test
+			if len(b.Preds) == 1 {
+				if iff, ok := b.Preds[0].Instrs[len(b.Preds[0].Instrs)-1].(*ssa.If); ok && isErrTest(iff.Cond) && b.Preds[0].Succs[0] == b {
+					continue
+				}
+			}
+			n++
+			key := fmt.Sprintf("%s:success return %d follows the writes", core.FuncName(fn), successReturnIndex(fn, b))
+			var missing []string
+			dominatedByWrite := false
+			for _, wb := range writeBlocks {
+				if wb == b || wb.Dominates(b) {
+					dominatedByWrite = true
+				}
+			}
+			if !dominatedByWrite {
+				missing = append(missing, "no call that receives the writer precedes it on every path")
+			}
+			for _, el := range outer {
+				if !el.h.Dominates(b) {
+					missing = append(missing, "the loop over "+el.field+" is not on every path to it")
+				}
+			}
+			if len(missing) == 0 {
+				c.Ob(rule, key, ret.Pos(), core.FuncName(fn), core.Discharged, "every path to this return passes the writes and the element loops")
+			} else {
+				c.Ob(rule, key, ret.Pos(), core.FuncName(fn), core.Violated, "the writer can report success without having written: "+strings.Join(missing, "; "))
+			}
+		}
+	}
+	c.Floor(rule, 6)
+}
+
+// successReturnIndex numbers the non-error returns of fn in block order (a
+// stable key that does not depend on line numbers).
+func successReturnIndex(fn *ssa.Function, b *ssa.BasicBlock) int {
+	k := 0
+	for _, x := range fn.Blocks {
+		if _, ok := x.Instrs[len(x.Instrs)-1].(*ssa.Return); ok {
+			k++
+			if x == b {
+				return k
+			}
+		}
+	}
+	return k
+}
+
+// isErrTest: cond is `x != nil` / `x == nil` on an error-typed operand.
+func isErrTest(cond ssa.Value) bool {
+	bo, ok := cond.(*ssa.BinOp)
+	if !ok || (bo.Op != token.NEQ && bo.Op != token.EQL) {
+		return false
+	}
+	if !(core.IsNilConst(bo.X) || core.IsNilConst(bo.Y)) {
+		return false
+	}
+	v := bo.X
+	if core.IsNilConst(v) {
+		v = bo.Y
+	}
+	return types.TypeString(v.Type(), nil) == "error"
+}
+
+// callWrites: the call receives the writer w, a value built from it (a
+// printer created by printer.New(w)), as an argument or receiver.
+func callWrites(p *core.Prog, call *ssa.Call, w *ssa.Parameter) bool {
+	derived := func(v ssa.Value) bool {
+		v = core.Strip(v)
+		if v == w {
+			return true
+		}
+		if cl, ok := v.(*ssa.Call); ok {
+			for _, a := range cl.Call.Args {
+				if core.Strip(a) == w {
+					return true
+				}
+			}
+		}
+		return false
+	}
+	if call.Call.IsInvoke() && derived(call.Call.Value) {
+		return true
+	}
+	for _, a := range call.Call.Args {
+		if derived(a) {
+			return true
+		}
+	}
+	return false
 }
